@@ -635,7 +635,7 @@ QUICK = {
     "Cleaner": ["r3c7a1t7", "r5c11a2tNone", "r3c3a2tNone", "r4c6a2t12p0", "r13c13a3tNone"], "Connector": ["g5a2t7rw", "g6a3t50rw", "g5a2t12rwc20s0", "g12a48t50rw", "g6a5t30uni"],
     "CVRP": ["n5s", "n20d", "zb6d", "n130d"], "LevelBasedForaging": ["g6a2f2v2l2cVNp0t100", "g8a3f3v3l3nGRp5t100", "g7a2f3v7l2nGRp0t40", "g5a3f1v5l2nVNp0t40", "g8a3f3v5l2nVNp0t40", "g6a4f1v6l2nVNp0t40"],
     "Maze": ["r4c7tNone", "r5c5t7", "r13c13tNone"], "MMST": ["n12e18a2k3t7", "n12e18a3k2t30"], "MultiCVRP": ["c6v2d", "c6v3s"],
-    "PacMan": ["t40", "small200", "tunnel120", "tall90"], "RobotWarehouse": ["s1x3h3a2r1q2t500", "s1x3h2a1r1q1t7"],
+    "PacMan": ["t40", "small200", "tunnel120", "tall90"], "RobotWarehouse": ["s1x3h3a2r1q2t500", "s1x3h2a1r1q1t7", "s2x3h8a4r1q8t500"],
     "Snake": ["r6c4t7", "r3c3t4000", "r12c12t20000deep", "r6c6t4000deep", "r2c3t40", "r4c4t4000"], "Sokoban": ["simplet120", "randomt120", "simplet10", "opent60"], "TSP": ["n5d", "n3d", "lat6s", "n130d"],
 }
 
